@@ -40,13 +40,14 @@ class HistPlugin(BasePlugin):
 
     def describe(self, case, outcome):
         return {'case': common.to_jsonable(case),
-                'impl': [{'outcome': common.to_jsonable(o), 'store': common.to_jsonable([d for _, d in s])}
-                         for o, s in outcome['obs']],
+                'impl': [{'outcome': common.to_jsonable(o), 'store': common.to_jsonable([d for _, d in s]),
+                          'indexes': common.to_jsonable(i)}
+                         for o, s, i in outcome['obs']],
                 'notes': outcome.get('notes')}
 
     def features(self, case, outcome, flags):
         feats = set()
-        for op, (o, _) in zip(case['ops'], outcome['obs']):
+        for op, (o, _, _) in zip(case['ops'], outcome['obs']):
             feats.add('op:' + op['op'])
             feats.add('out:' + ('ok' if 'ok' in o else o['err']))
             if op['op'] == 'update':
